@@ -21,8 +21,10 @@ TITLE = "Deduplication replaces only repeated points and gives up only after its
 ROWS = {1: [[0.1], [0.2], [0.3], [0.4]], 2: [[0.0, 0.0], [0.0, 1.0], [1.0, 0.0], [1.0, 1.0]],
         3: [[250000.0, 3.0], [250001.0, 3.0], [250002.0, 3.0], [250000.0, 3.0000001]],
         # universe 4: symbols 0 and 1 are the SAME point written with zeros of opposite sign (equal numerically, different bytes)
-        4: [[0.0, 0.25], [-0.0, 0.25], [0.5, 0.25], [0.0, 0.5]]}
-NCOLS = {1: 1, 2: 2, 3: 2, 4: 2}
+        4: [[0.0, 0.25], [-0.0, 0.25], [0.5, 0.25], [0.0, 0.5]],
+        # universe 5: five columns, every symbol with its own first coordinate (a pre-filter on one column would tell them apart)
+        5: [[0.1, 0.5, 0.5, 0.5, 0.5], [0.2, 0.5, 0.5, 0.5, 0.5], [0.3, 0.5, 0.5, 0.5, 0.5], [0.4, 0.5, 0.5, 0.5, 0.5]]}
+NCOLS = {1: 1, 2: 2, 3: 2, 4: 2, 5: 5}
 SAME = {4: {1: 0}}   # symbol -> the symbol it is numerically equal to
 
 
@@ -37,10 +39,17 @@ class NeedMore(Exception):
         self.k = k
 
 
-def _make_sampler(batch_size, passes):
+def _make_sampler(batch_size, passes, base="base"):
     from black_it.samplers.base import BaseSampler
+    from black_it.samplers.surrogate import MLSurrogateSampler
 
-    class Scripted(BaseSampler):
+    class Scripted(MLSurrogateSampler if base == "surrogate" else BaseSampler):
+        def fit(self, X, y):  # noqa: N803  (only needed to make a surrogate-derived class concrete; sample_batch below is scripted)
+            pass
+
+        def predict(self, X):  # noqa: N803
+            return np.zeros(len(X))
+
         def sample_batch(self, batch_size, search_space, existing_points, existing_losses):  # noqa: ARG002
             self.requests.append(int(batch_size))
             if self.pos + batch_size > len(self.script):
@@ -79,12 +88,32 @@ def ref_run(script, hist, B, P):
     return ("done", sorted(batch), requests, untouched, passes_run)
 
 
-def impl_run(sampler, script, hist, cols):
+_PAD = {}
+
+
+def _padding(n, ncols):
+    """n filler rows, pairwise distinct and distinct from every universe row (second column 2 + k/n)."""
+    if (n, ncols) not in _PAD:
+        a = np.full((n, ncols), 0.75)
+        a[:, 0] = 5.0 + np.arange(n) * 1e-3
+        a[:, 1] = 2.0 + np.arange(n) / n
+        _PAD[(n, ncols)] = a
+    return _PAD[(n, ncols)]
+
+
+def impl_run(sampler, script, hist, cols, pad=0, loss_kind="zeros"):
     rows = ROWS[cols]
     sampler.rows, sampler.cols = rows, cols
     sampler.script, sampler.pos, sampler.requests = list(script), 0, []
     existing = np.array([rows[h] for h in hist], dtype=float).reshape(len(hist), NCOLS[cols])
     losses = np.zeros(len(hist))
+    if loss_kind == "nonfinite":   # the history rows carry NaN / inf losses (failed simulations): they are history rows all the same
+        losses = np.array([np.nan if i % 2 == 0 else np.inf for i in range(len(hist))], dtype=float)
+    if pad:
+        # a LONG history: the universe rows sit at position 77 and at the very end of `pad` filler rows
+        fill = _padding(pad, NCOLS[cols])
+        existing = np.vstack([fill[:77], existing[:1], fill[77:], existing[1:]]) if len(hist) else fill
+        losses = np.concatenate([np.ones(77), losses[:1], np.ones(pad - 77), losses[1:]]) if len(hist) else np.ones(pad)
     before = existing.copy()
     try:
         out = sampler.sample(None, existing, losses)
@@ -138,21 +167,22 @@ def judge(script, hist, B, P, cols, impl, ref):
 def explore_cell(cell):
     cols, hname, B, P, first = cell["cols"], cell["hist"], cell["B"], cell["P"], tuple(cell["first"])
     hist = HISTORIES[hname]
-    sampler = _make_sampler(B, P)   # ONE object for the whole cell: state carried from one sample() call to the next would show
+    pad, loss_kind = cell.get("pad", 0), cell.get("loss_kind", "zeros")
+    sampler = _make_sampler(B, P, cell.get("base", "base"))   # ONE object for the whole cell: state carried from one sample() call to the next would show
     res = {"evaluations": 0, "nontrivial": 0, "states": 0, "transitions": 0, "traces": 0, "stats": {}, "outcomes": set(), "violations": [], "samples": []}
     st = res["stats"]
     stack = [first]
     nsym = 4
     while stack:
         script = stack.pop()
-        impl = impl_run(sampler, script, hist, cols)
+        impl = impl_run(sampler, script, hist, cols, pad, loss_kind)
         ref = ref_run(canon_script(script, cols), hist, B, P)
         res["transitions"] += 1
         vs = judge(canon_script(script, cols), hist, B, P, cols, impl, ref)
         for key, what in vs:
             if len(res["violations"]) < 5:
                 res["violations"].append({"key": key, "what": f"cols={cols} history={hname} B={B} passes={P} script={list(script)}: {what}",
-                                          "case": {"cols": cols, "hist": hname, "B": B, "P": P, "script": list(script), "first": list(first)}})
+                                          "case": {"cols": cols, "hist": hname, "B": B, "P": P, "script": list(script), "first": list(first), "pad": pad, "loss_kind": loss_kind, "base": cell.get("base", "base")}})
             st["violating_executions"] = st.get("violating_executions", 0) + 1
         if vs:
             continue
@@ -189,7 +219,8 @@ def replay_case(case):
     """Re-runs the cell the case came from (one sampler object driven through the same scripts in the same order), so that a
     violation which needs state left by an EARLIER sample() call on the object reproduces; reports what is found for this script."""
     if "first" in case:
-        r = explore_cell({"cols": case["cols"], "hist": case["hist"], "B": case["B"], "P": case["P"], "first": case["first"]})
+        r = explore_cell({"cols": case["cols"], "hist": case["hist"], "B": case["B"], "P": case["P"], "first": case["first"], "pad": case.get("pad", 0),
+                          "loss_kind": case.get("loss_kind", "zeros"), "base": case.get("base", "base")})
         return [{"key": v["key"], "what": v["what"]} for v in r["violations"] if v["case"]["script"] == case["script"]]
     hist = HISTORIES[case["hist"]]
     sampler = _make_sampler(case["B"], case["P"])
@@ -218,7 +249,17 @@ def main(ctx):
     if not ctx.quick:
         for first in itertools.product(range(4), repeat=3):
             cells.append({"cols": 1, "hist": "h1h2", "B": 3, "P": 3, "first": list(first)})
-    cells.sort(key=lambda c: -(4 ** (c["B"] * c["P"])))
+    # long histories (rows x columns on both sides of 50 000) with the universe rows buried in them; surrogate-derived samplers on
+    # histories whose rows carry NaN / inf losses
+    for pad in (9000, 10001, 12345) if ctx.quick else (4095, 9000, 10001, 12345, 20000):
+        for first in itertools.product(range(4), repeat=2):
+            cells.append({"cols": 5, "hist": "h1h2", "B": 2, "P": 2, "first": list(first), "pad": pad})
+    for hname in ("h1", "h1h2", "h1h1h2"):
+        for B, P in ((1, 2), (2, 1), (2, 2), (3, 1)):
+            for first in itertools.product(range(4), repeat=B):
+                for lk in ("nonfinite", "zeros"):
+                    cells.append({"cols": 2, "hist": hname, "B": B, "P": P, "first": list(first), "base": "surrogate", "loss_kind": lk})
+    cells.sort(key=lambda c: -(4 ** (c["B"] * c["P"])) * (50 if c.get("pad") else 1))
     ctx.bounds = {"universe": "h1,h2 (history), f1,f2 (fresh); rows as 1 column, 2 columns sharing coordinates, 2 columns at scale 2.5e5 (distinct but relatively close), 2 columns where two symbols are the same point with zeros of opposite sign", "histories": list(HISTORIES),
                   "batch_size->pass budgets": {str(k): [min(v), max(v)] for k, v in budget.items()}, "cells": len(cells)}
     ctx.rule = ("systematic exploration of generator answers: every execution that asks for k more rows is extended by all 4^k tuples; "
